@@ -573,7 +573,9 @@ def snapshot_objects(conc):
     snap = {}
     for oid, o in conc.objs.items():
         ty = conc.types[oid]
-        if isinstance(ty, (TObj, TAbs)):
+        if isinstance(ty, TAbs) and getattr(ty, "observe", None) is not None:
+            snap[oid] = dict(ty.observe(o))
+        elif isinstance(ty, (TObj, TAbs)):
             snap[oid] = {f: getattr(o, f, None) for f in ty.fields}
     return snap
 
